@@ -863,7 +863,20 @@ theorem dicSet_split (d : Dic) (k v : Bytes) : ∃ l1 l2, dicSet d k v = l1 ++ (
 /-! ### one header line -/
 
 /-- a field name: not empty, no colon, no white space (so also no CR / LF) -/
-def WFName (n : Bytes) : Prop := n ≠ [] ∧ ∀ c ∈ n, c ≠ 58 ∧ cIsSpace c = false
+def WFName (n : Bytes) : Prop := n ≠ [] ∧ ∀ c ∈ n, c ≠ 58 ∧ cIsSpace c = false ∧ 32 < c ∧ c ≠ 127
+
+/-- a well-formed name passes the token test of `readHeaders` (9bf376e) -/
+theorem wfname_token {n : Bytes} (hn : WFName n) :
+    ¬ (n.length = 0 ∨ (n.all fun c => decide (32 < c) && c != 127) = false) := by
+  intro h
+  rcases h with h | h
+  · exact hn.1 (List.eq_nil_of_length_eq_zero h)
+  · have : (n.all fun c => decide (32 < c) && c != 127) = true := by
+      rw [List.all_eq_true]
+      intro c hc
+      obtain ⟨_, _, h3, h4⟩ := hn.2 c hc
+      simp [h3, h4]
+    rw [this] at h; cases h
 
 /-- a field value: not empty, no LF, no white space at either end -/
 def WFValue (v : Bytes) : Prop :=
@@ -946,7 +959,7 @@ theorem header_line_parse {n v : Bytes} (hn : WFName n) (hv : WFValue v) :
       rw [hline, hna] at hc
       simp only [List.cons_append, List.head?_cons, Option.some.injEq] at hc
       subst hc
-      exact (cIsSpace_isSpace ha.2).1
+      exact (cIsSpace_isSpace ha.2.1).1
     rw [h1, hline, trimEnd_cr]
     have h2 : trimEnd (n ++ [58, 32] ++ v) = n ++ [58, 32] ++ v := by
       apply trimEnd_id
@@ -956,7 +969,7 @@ theorem header_line_parse {n v : Bytes} (hn : WFName n) (hv : WFValue v) :
     rw [h2]; simp
   refine ⟨?_, ?_, ?_, ?_, ?_⟩
   · rw [hline, hna]; simp
-  · rw [hline, hna]; simp only [List.cons_append, List.headD_cons]; exact ha.2
+  · rw [hline, hna]; simp only [List.cons_append, List.headD_cons]; exact ha.2.1
   · rw [ht]; exact indexOfByte_append 58 n _ (fun x hx => (hnc x hx).1)
   · rw [ht]; simp
   · rw [ht]
@@ -993,7 +1006,7 @@ theorem readHeaders_step (f : Nat) (i : Inp) (h : Dic) (ln lv n v tail : Bytes) 
     intro c hc
     simp only [List.mem_append, List.mem_cons, List.mem_singleton, List.not_mem_nil, or_false] at hc
     rcases hc with ((h1 | h1) | h1) | h1
-    · exact (cIsSpace_isSpace (hn.2 c h1).2).2.1
+    · exact (cIsSpace_isSpace (hn.2 c h1).2.1).2.1
     · rcases h1 with h1 | h1 <;> subst h1 <;> decide
     · exact hv.2.1 c h1
     · subst h1; decide
@@ -1003,7 +1016,7 @@ theorem readHeaders_step (f : Nat) (i : Inp) (h : Dic) (ln lv n v tail : Bytes) 
   constructor
   · rw [readHeadersLoop, hrl]
     simp only [p1, if_false, p2, Bool.false_eq_true, p3, p4, p5]
-    rw [hll, storeHeader_of_value hv.1]
+    rw [if_neg (wfname_token hn), hll, storeHeader_of_value hv.1]
   · rw [hll] at hrest; exact hrest
 
 theorem readHeaders_end (f : Nat) (i : Inp) (h : Dic) (ln lv rest : Bytes) (hi : Live i) (hd : i.data = crlf ++ rest) :
@@ -1839,19 +1852,19 @@ theorem capLoop_length (b : Bool) (n : Bytes) : (capLoop b n).length = n.length 
   | nil => rfl
   | cons c t ih => simp [capLoop, ih]
 
-theorem byte_name_facts : ∀ n, n < 256 → (UInt8.ofNat n ≠ 58 ∧ cIsSpace (UInt8.ofNat n) = false) →
-    (toUpper (UInt8.ofNat n) ≠ 58 ∧ cIsSpace (toUpper (UInt8.ofNat n)) = false) ∧
-    (toLower (UInt8.ofNat n) ≠ 58 ∧ cIsSpace (toLower (UInt8.ofNat n)) = false) := by
+theorem byte_name_facts : ∀ n, n < 256 → (UInt8.ofNat n ≠ 58 ∧ cIsSpace (UInt8.ofNat n) = false ∧ 32 < UInt8.ofNat n ∧ UInt8.ofNat n ≠ 127) →
+    (toUpper (UInt8.ofNat n) ≠ 58 ∧ cIsSpace (toUpper (UInt8.ofNat n)) = false ∧ 32 < toUpper (UInt8.ofNat n) ∧ toUpper (UInt8.ofNat n) ≠ 127) ∧
+    (toLower (UInt8.ofNat n) ≠ 58 ∧ cIsSpace (toLower (UInt8.ofNat n)) = false ∧ 32 < toLower (UInt8.ofNat n) ∧ toLower (UInt8.ofNat n) ≠ 127) := by
   decide +kernel
 
-theorem byte_name (c : UInt8) (h : c ≠ 58 ∧ cIsSpace c = false) :
-    (toUpper c ≠ 58 ∧ cIsSpace (toUpper c) = false) ∧ (toLower c ≠ 58 ∧ cIsSpace (toLower c) = false) := by
+theorem byte_name (c : UInt8) (h : c ≠ 58 ∧ cIsSpace c = false ∧ 32 < c ∧ c ≠ 127) :
+    (toUpper c ≠ 58 ∧ cIsSpace (toUpper c) = false ∧ 32 < toUpper c ∧ toUpper c ≠ 127) ∧ (toLower c ≠ 58 ∧ cIsSpace (toLower c) = false ∧ 32 < toLower c ∧ toLower c ≠ 127) := by
   have := byte_name_facts c.toNat (UInt8.toNat_lt c)
   simp only [UInt8.ofNat_toNat] at this
   exact this h
 
-theorem capLoop_wf (b : Bool) (n : Bytes) (h : ∀ c ∈ n, c ≠ 58 ∧ cIsSpace c = false) :
-    ∀ c ∈ capLoop b n, c ≠ 58 ∧ cIsSpace c = false := by
+theorem capLoop_wf (b : Bool) (n : Bytes) (h : ∀ c ∈ n, c ≠ 58 ∧ cIsSpace c = false ∧ 32 < c ∧ c ≠ 127) :
+    ∀ c ∈ capLoop b n, c ≠ 58 ∧ cIsSpace c = false ∧ 32 < c ∧ c ≠ 127 := by
   induction n generalizing b with
   | nil => intro c hc; simp [capLoop] at hc
   | cons x t ih =>
@@ -1965,14 +1978,28 @@ def withAllow (code : Nat) (h : Dic) : Dic := if code = 405 then setHeader h sAl
 /-- `serve(Socket)` reads the connection again unless HTTP/1.0 without keep-alive, or `Connection: close` -/
 def keepOf (q : Request) : Bool := !((q.proto = sHttp10 && connValue q != sKeepAlive) || connValue q = sClose)
 
-theorem serveOne_keep (blk rblk : Nat) (opt : Bool) (q : Request) (p : Plan) (js base : Bytes) :
+/-- the one answer after which the server itself ends the connection: an unframed stream to an HTTP/1.0 request (687f097) -/
+def NotClosedByStream (q : Request) (p : Plan) : Prop := q.proto = sHttp10 → ∀ parts, p.kind ≠ .streamAuto parts
+
+theorem endByClose_11 (code : Nat) (h : Dic) : endByClose sHttp11 code h = false := by
+  unfold endByClose
+  have : (sHttp11 == sHttp10) = false := by decide
+  simp [this]
+
+theorem serveOne_keep (blk rblk : Nat) (opt : Bool) (q : Request) (p : Plan) (js base : Bytes) (hns : NotClosedByStream q p) :
     (serveOne blk rblk opt q p js base).keep = keepOf q := by
   unfold serveOne keepOf connValue
   simp only []
   by_cases h : q.method = sOPTIONS ∧ opt = true
   · simp [h]
   · simp only [h, if_false]
-    cases p.kind <;> simp only [] <;> (repeat' split) <;> rfl
+    cases hk : p.kind with
+    | streamAuto parts =>
+      simp only []
+      by_cases h10 : q.proto = sHttp10
+      · exact absurd hk (hns h10 parts)
+      · simp only [h10, if_false, endByClose_11]; simp
+    | _ => simp only [] <;> (repeat' split) <;> rfl
 
 theorem serveOne_called (blk rblk : Nat) (opt : Bool) (q : Request) (p : Plan) (js base : Bytes) :
     (serveOne blk rblk opt q p js base).called = !(decide (q.method = sOPTIONS) && opt) := by
@@ -2007,7 +2034,7 @@ theorem serveOne_none (blk rblk : Nat) (opt : Bool) (q : Request) (p : Plan) (js
 theorem serveOne_stream (blk rblk : Nat) (opt : Bool) (q : Request) (p : Plan) (js base : Bytes) (parts : List Bytes) (fin : Bool)
     (hopt : ¬ (q.method = sOPTIONS ∧ opt = true)) (hk : p.kind = .stream parts fin) :
     (serveOne blk rblk opt q p js base).wire =
-      serializeStream blk (statusLine (respProto q) p.code) (setHeader (handlerHeaders q p) sTransferEncoding sChunked) parts fin := by
+      serializeStream blk (respProto q) p.code (setHeader (handlerHeaders q p) sTransferEncoding sChunked) parts fin := by
   unfold serveOne
   simp only [hopt, if_false, hk]
   rfl
@@ -2250,7 +2277,7 @@ theorem readHeaders_step_empty (f : Nat) (i : Inp) (h : Dic) (ln lv n tail : Byt
   have hnolf : ∀ c ∈ n ++ [58, 32, 13], c ≠ 10 := by
     intro c hc
     rcases List.mem_append.mp hc with h1 | h1
-    · exact (cIsSpace_isSpace (hnc c h1).2).2.1
+    · exact (cIsSpace_isSpace (hnc c h1).2.1).2.1
     · simp only [List.mem_cons, List.not_mem_nil, or_false] at h1
       rcases h1 with h1 | h1 | h1 <;> subst h1 <;> decide
   have hll : (n ++ [58, 32, 13]).length + 1 = n.length + 4 := by simp
@@ -2263,7 +2290,7 @@ theorem readHeaders_step_empty (f : Nat) (i : Inp) (h : Dic) (ln lv n tail : Byt
       intro c hc
       rw [hna] at hc
       simp only [List.cons_append, List.head?_cons, Option.some.injEq] at hc
-      subst hc; exact (cIsSpace_isSpace ha.2).1
+      subst hc; exact (cIsSpace_isSpace ha.2.1).1
     rw [h1, show n ++ [58, 32, 13] = (n ++ [58, 32]) ++ [13] by simp, trimEnd_cr,
       show n ++ [58, 32] = (n ++ [58]) ++ [32] by simp, trimEnd_sp]
     apply trimEnd_id
@@ -2272,7 +2299,7 @@ theorem readHeaders_step_empty (f : Nat) (i : Inp) (h : Dic) (ln lv n tail : Byt
     simp at hc; subst hc; decide
   have hne : (n ++ [58, 32, 13]) ≠ [13] := by rw [hna]; simp
   have hhead : cIsSpace ((n ++ [58, 32, 13]).headD 0) = false := by
-    rw [hna]; simp only [List.cons_append, List.headD_cons]; exact ha.2
+    rw [hna]; simp only [List.cons_append, List.headD_cons]; exact ha.2.1
   have hidx : indexOfByte 58 (n ++ [58]) = some n.length := indexOfByte_append 58 n [] (fun x hx => (hnc x hx).1)
   constructor
   · rw [readHeadersLoop, hrl]
@@ -2282,7 +2309,7 @@ theorem readHeaders_step_empty (f : Nat) (i : Inp) (h : Dic) (ln lv n tail : Byt
       have : (n ++ [58]).drop (n.length + 1) = [] := by
         rw [show n.length + 1 = (n ++ [58]).length by simp, List.drop_length]
       rw [this]; rfl
-    rw [h1, h2]
+    rw [h1, h2, if_neg (wfname_token ⟨hn0, hnc⟩)]
   · exact hrest
 
 
@@ -2468,29 +2495,36 @@ theorem sentHeaders_put_chunked {D : Dic} (len : Bytes) (hlen : len ≠ []) (hcl
 
 /-- a streamed response whose handler named the chunked coding itself goes out under its own headers, and is not ended by
 the library -/
-theorem streamHeaders_named {h : Dic} {v : Bytes} (hte : dicGet h sTransferEncoding = some v)
-    (hcl : dicGet h sContentLength = none) : streamHeaders h = h ∧ ownChunks h = false := by
-  have ho : ownChunks h = false := by
-    unfold ownChunks hasHeader; rw [cap_te, hte]; simp
-  refine ⟨?_, ho⟩
-  unfold streamHeaders; rw [ho]; simp only [Bool.false_eq_true, if_false]
+theorem streamHeaders_named {h : Dic} {v : Bytes} (proto : Bytes) (code : Nat) (hte : dicGet h sTransferEncoding = some v)
+    (hcl : dicGet h sContentLength = none) :
+    streamHeaders proto code h = h ∧ ownChunks proto code h = false ∧ endByClose proto code h = false := by
+  have hu : unframed h = false := by
+    unfold unframed hasHeader; rw [cap_te, hte]; simp
+  have ho : ownChunks proto code h = false := by unfold ownChunks; rw [hu]; rfl
+  have he : endByClose proto code h = false := by unfold endByClose; rw [hu]; rfl
+  refine ⟨?_, ho, he⟩
+  unfold streamHeaders; rw [ho, he]; simp only [Bool.false_eq_true, if_false]
   exact sentHeaders_no_cl hcl
 
-/-- a streamed response that names neither a length nor a coding (75c75d0): the library announces the chunked coding and
-ends the stream — the same bytes as for a handler that names the coding and ends the stream by hand -/
-theorem serializeStream_own (blk : Nat) (command : Bytes) (h : Dic) (parts : List Bytes)
+/-- a streamed response that names neither a length nor a coding, with a status that can have a body, to an HTTP/1.1
+request (75c75d0): the library announces the chunked coding and ends the stream — the same bytes as for a handler that names
+the coding and ends the stream by hand -/
+theorem serializeStream_own (blk : Nat) (code : Nat) (h : Dic) (parts : List Bytes) (hcode : bodyless code = false)
     (hcl : dicGet h sContentLength = none) (hte : dicGet h sTransferEncoding = none) :
-    serializeStream blk command h parts false = serializeStream blk command (setHeader h sTransferEncoding sChunked) parts true := by
-  have ho : ownChunks h = true := by
-    unfold ownChunks hasHeader; rw [cap_te, cap_cl, hte, hcl]; rfl
+    serializeStream blk sHttp11 code h parts false = serializeStream blk sHttp11 code (setHeader h sTransferEncoding sChunked) parts true := by
+  have hu : unframed h = true := by
+    unfold unframed hasHeader; rw [cap_te, cap_cl, hte, hcl]; rfl
+  have h11 : (sHttp11 != sHttp10) = true := by decide
+  have ho : ownChunks sHttp11 code h = true := by unfold ownChunks; rw [hu, hcode, h11]; rfl
+  have he : endByClose sHttp11 code h = false := endByClose_11 code h
   have hte' : dicGet (setHeader h sTransferEncoding sChunked) sTransferEncoding = some sChunked := by
     have := dicGet_setHeader_same h sTransferEncoding sChunked (by decide)
     rwa [cap_te] at this
   have hcl' : dicGet (setHeader h sTransferEncoding sChunked) sContentLength = none := by
     rw [dicGet_setHeader_other h sTransferEncoding _ sContentLength (by decide) (by rw [cap_te]; decide)]; exact hcl
-  obtain ⟨h1, h2⟩ := streamHeaders_named hte' hcl'
+  obtain ⟨h1, h2, h3⟩ := streamHeaders_named sHttp11 code hte' hcl'
   unfold serializeStream
-  rw [h1, h2]
+  simp only [h1, h2, h3, he]
   unfold streamHeaders
   rw [ho]
   simp
